@@ -42,8 +42,7 @@ type serverGetMuxerReq struct {
 }
 
 type serverAPIMuxersListRes struct {
-	data *defs.APIHLSMuxerList
-	err  error
+	muxers []*muxer
 }
 
 type serverAPIMuxersListReq struct {
@@ -51,8 +50,8 @@ type serverAPIMuxersListReq struct {
 }
 
 type serverAPIMuxersGetRes struct {
-	data *defs.APIHLSMuxer
-	err  error
+	muxer *muxer
+	err   error
 }
 
 type serverAPIMuxersGetReq struct {
@@ -61,8 +60,7 @@ type serverAPIMuxersGetReq struct {
 }
 
 type serverAPISessionsListRes struct {
-	data *defs.APIHLSSessionList
-	err  error
+	muxers []*muxer
 }
 
 type serverAPISessionsListReq struct {
@@ -70,8 +68,7 @@ type serverAPISessionsListReq struct {
 }
 
 type serverAPISessionsGetRes struct {
-	data *defs.APIHLSSession
-	err  error
+	muxers []*muxer
 }
 
 type serverAPISessionsGetReq struct {
@@ -80,7 +77,7 @@ type serverAPISessionsGetReq struct {
 }
 
 type serverAPISessionsKickRes struct {
-	err error
+	muxers []*muxer
 }
 
 type serverAPISessionsKickReq struct {
@@ -269,21 +266,7 @@ outer:
 			}
 
 		case req := <-s.chAPIMuxerList:
-			data := &defs.APIHLSMuxerList{
-				Items: []defs.APIHLSMuxer{},
-			}
-
-			for _, muxer := range s.muxers {
-				data.Items = append(data.Items, *muxer.apiItem())
-			}
-
-			sort.Slice(data.Items, func(i, j int) bool {
-				return data.Items[i].Created.Before(data.Items[j].Created)
-			})
-
-			req.res <- serverAPIMuxersListRes{
-				data: data,
-			}
+			req.res <- serverAPIMuxersListRes{muxers: s.muxerList()}
 
 		case req := <-s.chAPIMuxerGet:
 			muxer, ok := s.muxers[req.name]
@@ -292,44 +275,16 @@ outer:
 				continue
 			}
 
-			req.res <- serverAPIMuxersGetRes{data: muxer.apiItem()}
+			req.res <- serverAPIMuxersGetRes{muxer: muxer}
 
 		case req := <-s.chAPISessionsList:
-			data := &defs.APIHLSSessionList{
-				Items: []defs.APIHLSSession{},
-			}
-
-			for _, muxer := range s.muxers {
-				data.Items = append(data.Items, muxer.apiSessionsList()...)
-			}
-
-			sort.Slice(data.Items, func(i, j int) bool {
-				return data.Items[i].Created.Before(data.Items[j].Created)
-			})
-
-			req.res <- serverAPISessionsListRes{data: data}
+			req.res <- serverAPISessionsListRes{muxers: s.muxerList()}
 
 		case req := <-s.chAPISessionsGet:
-			for _, muxer := range s.muxers {
-				session, ok := muxer.apiSessionsGet(req.uuid)
-				if ok {
-					req.res <- serverAPISessionsGetRes{data: session}
-					continue outer
-				}
-			}
-
-			req.res <- serverAPISessionsGetRes{err: ErrSessionNotFound}
+			req.res <- serverAPISessionsGetRes{muxers: s.muxerList()}
 
 		case req := <-s.chAPISessionsKick:
-			for _, muxer := range s.muxers {
-				ok := muxer.apiSessionsKick(req.uuid)
-				if ok {
-					req.res <- serverAPISessionsKickRes{}
-					continue outer
-				}
-			}
-
-			req.res <- serverAPISessionsKickRes{err: ErrSessionNotFound}
+			req.res <- serverAPISessionsKickRes{muxers: s.muxerList()}
 
 		case <-s.ctx.Done():
 			break outer
@@ -339,6 +294,17 @@ outer:
 	s.ctxCancel()
 
 	s.httpServer.close()
+}
+
+// muxerList returns the current muxers.
+// Muxers must not be queried inside run(), since a muxer holds its mutex until it is initialized,
+// the initialization waits for the path manager and the path manager might be waiting for run().
+func (s *Server) muxerList() []*muxer {
+	ret := make([]*muxer, 0, len(s.muxers))
+	for _, muxer := range s.muxers {
+		ret = append(ret, muxer)
+	}
+	return ret
 }
 
 func (s *Server) createMuxer(pathName string, remoteAddr string, query string) *muxer {
@@ -409,7 +375,20 @@ func (s *Server) APIMuxersList() (*defs.APIHLSMuxerList, error) {
 	select {
 	case s.chAPIMuxerList <- req:
 		res := <-req.res
-		return res.data, res.err
+
+		data := &defs.APIHLSMuxerList{
+			Items: []defs.APIHLSMuxer{},
+		}
+
+		for _, muxer := range res.muxers {
+			data.Items = append(data.Items, *muxer.apiItem())
+		}
+
+		sort.Slice(data.Items, func(i, j int) bool {
+			return data.Items[i].Created.Before(data.Items[j].Created)
+		})
+
+		return data, nil
 
 	case <-s.ctx.Done():
 		return nil, fmt.Errorf("terminated")
@@ -426,7 +405,10 @@ func (s *Server) APIMuxersGet(name string) (*defs.APIHLSMuxer, error) {
 	select {
 	case s.chAPIMuxerGet <- req:
 		res := <-req.res
-		return res.data, res.err
+		if res.err != nil {
+			return nil, res.err
+		}
+		return res.muxer.apiItem(), nil
 
 	case <-s.ctx.Done():
 		return nil, fmt.Errorf("terminated")
@@ -442,7 +424,20 @@ func (s *Server) APISessionsList() (*defs.APIHLSSessionList, error) {
 	select {
 	case s.chAPISessionsList <- req:
 		res := <-req.res
-		return res.data, res.err
+
+		data := &defs.APIHLSSessionList{
+			Items: []defs.APIHLSSession{},
+		}
+
+		for _, muxer := range res.muxers {
+			data.Items = append(data.Items, muxer.apiSessionsList()...)
+		}
+
+		sort.Slice(data.Items, func(i, j int) bool {
+			return data.Items[i].Created.Before(data.Items[j].Created)
+		})
+
+		return data, nil
 
 	case <-s.ctx.Done():
 		return nil, fmt.Errorf("terminated")
@@ -459,7 +454,15 @@ func (s *Server) APISessionsGet(uuid uuid.UUID) (*defs.APIHLSSession, error) {
 	select {
 	case s.chAPISessionsGet <- req:
 		res := <-req.res
-		return res.data, res.err
+
+		for _, muxer := range res.muxers {
+			session, ok := muxer.apiSessionsGet(req.uuid)
+			if ok {
+				return session, nil
+			}
+		}
+
+		return nil, ErrSessionNotFound
 
 	case <-s.ctx.Done():
 		return nil, fmt.Errorf("terminated")
@@ -476,7 +479,15 @@ func (s *Server) APISessionsKick(uuid uuid.UUID) error {
 	select {
 	case s.chAPISessionsKick <- req:
 		res := <-req.res
-		return res.err
+
+		for _, muxer := range res.muxers {
+			ok := muxer.apiSessionsKick(req.uuid)
+			if ok {
+				return nil
+			}
+		}
+
+		return ErrSessionNotFound
 
 	case <-s.ctx.Done():
 		return fmt.Errorf("terminated")
